@@ -432,6 +432,7 @@ type Contract struct {
 	Holds     map[string]int // lockset: mutex access path -> mode held at entry (1 read, 2 write)
 	Unguarded []string       // lockset: base access paths exempt from guard checks (unpublished objects)
 	NoWrite   []string       // access paths (x.f) this function must not assign, insert into or delete from
+	Gosync    map[string]bool // gosync x: captured variable x shared with a goroutine is synchronised by other means (stated in the contract)
 }
 
 type GhostVar struct {
@@ -684,6 +685,18 @@ func (cs *ContractSet) loadContractFile(path, pkgPath string) error {
 					cur.NoWrite = append(cur.NoWrite, u)
 				}
 			}
+		case "gosync":
+			if cur == nil {
+				return fail(fmt.Errorf("gosync outside func"))
+			}
+			if cur.Gosync == nil {
+				cur.Gosync = map[string]bool{}
+			}
+			for _, u := range strings.Split(rest, ",") {
+				if u = strings.TrimSpace(u); u != "" {
+					cur.Gosync[u] = true
+				}
+			}
 		case "unguarded":
 			if cur == nil {
 				return fail(fmt.Errorf("unguarded outside func"))
@@ -693,7 +706,7 @@ func (cs *ContractSet) loadContractFile(path, pkgPath string) error {
 					cur.Unguarded = append(cur.Unguarded, u)
 				}
 			}
-		case "pure", "trusted", "inline", "lemma", "noinline", "opaque", "entry", "safety_off", "lockbalance", "calls_havoc", "lockset", "noloopframe", "interference", "requires_off", "go_summary", "go_inline":
+		case "pure", "trusted", "inline", "lemma", "noinline", "opaque", "entry", "safety_off", "lockbalance", "calls_havoc", "lockset", "noloopframe", "interference", "requires_off", "go_summary", "go_inline", "structural":
 			if cur == nil {
 				return fail(fmt.Errorf("%s outside func", word))
 			}
